@@ -1647,6 +1647,11 @@ namespace bloch::runtime {
         if (kTraceConstructors) {
             std::cerr << "[ctor] " << cls->name << " done" << std::endl;
         }
+        // 'return this;' (the documented constructor idiom) must not leave the object parked in
+        // the return slot: that extra reference kept it alive until some later call overwrote
+        // the slot, so its destructor ran late or never. A constructor's value is never used.
+        if (m_hasReturn)
+            m_returnValue = {};
 
         endFrame();
         m_currentClassCtx = prevClass;
